@@ -18,7 +18,8 @@ def _m(tok, pat):
     ttype, vals = pat
     if tok[0] is not ttype:
         return False
-    v = tok[1].upper() if tok[0] in T.Keyword else tok[1]
+    # keywords compare case-insensitively and, for multi-word keywords, modulo their inner whitespace
+    v = ' '.join(tok[1].upper().split()) if tok[0] in T.Keyword else tok[1]
     return v in vals
 
 
